@@ -148,13 +148,17 @@ func init() {
 			}
 			out = append(out, inst("gateway", "VH_C11_cycle", 0, -1, 1), inst("gateway", "VH_C11_cycle", 1, 0, 1))
 			out = append(out, inst("gateway", "VH_C11_timed", 1), inst("gateway", "VH_C11_timed", 3))
+			for _, k := range [][2]int64{{0, 0}, {1, 0}, {2, 1}, {3, 0}, {0, 2}} {
+				out = append(out, inst("gateway", "VH_C11_two_cycles", k[0], k[1], 0), inst("gateway", "VH_C11_two_cycles", k[0], k[1], 1))
+			}
 			return out
 		},
-		Asserts: []string{"C11.sleep_request_answered", "C11.nothing_sent_while_asleep", "C11.buffered_delivered_once_then_pingresp", "C11.buffered_in_original_order", "C11.followed_by_pingresp", "C11.asleep_again_after_pingresp", "C11.timed_delivered_once"},
-		Reach:   []string{"C11.woke_up", "C11.second_cycle", "C11.woke_up_later"},
+		Asserts: []string{"C11.sleep_request_answered", "C11.nothing_sent_while_asleep", "C11.buffered_delivered_once_then_pingresp", "C11.buffered_in_original_order", "C11.followed_by_pingresp", "C11.asleep_again_after_pingresp", "C11.timed_delivered_once", "C11.first_cycle_delivered_once", "C11.second_cycle_delivers_only_its_own_packets"},
+		Reach:   []string{"C11.woke_up", "C11.second_cycle", "C11.woke_up_later", "C11.second_wakeup"},
 		Bounds: map[string]string{
 			"cycle":  "active client, DISCONNECT(duration symbolic > 0), then 1..2 broker events among PUBLISH QoS 0 short / QoS 1 registered / QoS 0 new topic (REGISTER) / QoS 2 short / PINGRESP / UNSUBACK with symbolic IDs, payload byte, retain; PINGREQ; oracle = a twin session that never slept and received the same events",
 			"second": "one more broker PUBLISH after the wake-up PINGRESP (second sleep cycle)",
+			"cycles": "two sleep cycles: cycle 1 ended by PINGREQ or by CONNECT (back to active), then DISCONNECT(d) again, a second broker event, PINGREQ: only the second cycle's packets arrive, once",
 			"timed":  "virtual time: one broker PUBLISH QoS 1 / QoS 2 while asleep, wake-up after a symbolic time < 3.5 s with the gateway's retry timers (RetryDelay 1 s, RetryCount 2) running",
 		},
 		Outside: []string{"a broker PUBLISH racing with the PINGREQ on the other receive goroutine (needs pre-emptive interleaving; pktBuffer is unsynchronised - see DESIGN.md)", "more than two buffered events"},
@@ -165,10 +169,10 @@ func init() {
 	reg(&Spec{
 		ID: "C12", Pkgs: []string{"gateway", "util"}, LoopBound: 4000, ValidateN: 3,
 		Quick: func() []Inst {
-			return []Inst{inst("gateway", "VH_C12_active", 2), inst("gateway", "VH_C12_sleep", 2, 1)}
+			return []Inst{inst("gateway", "VH_C12_active", 2), inst("gateway", "VH_C12_sleep", 2, 1, 0), inst("gateway", "VH_C12_sleep", 2, 2, 5)}
 		},
 		Thor: func() []Inst {
-			return []Inst{inst("gateway", "VH_C12_active", 2), inst("gateway", "VH_C12_active", 5), inst("gateway", "VH_C12_sleep", 2, 1), inst("gateway", "VH_C12_sleep", 2, 2), inst("gateway", "VH_C12_sleep", 3, 2)}
+			return []Inst{inst("gateway", "VH_C12_active", 2), inst("gateway", "VH_C12_active", 5), inst("gateway", "VH_C12_sleep", 2, 1, 0), inst("gateway", "VH_C12_sleep", 2, 2, 5), inst("gateway", "VH_C12_sleep", 2, 2, 0), inst("gateway", "VH_C12_sleep", 3, 2, 0)}
 		},
 		Asserts: []string{"C12.gap_between_broker_packets", "C12.gap_until_end", "C12.pinger_period", "C12.pinger_keeps_pinging"},
 		Reach:   []string{"C12.history_done", "C12.active_done", "C12.pinger_ran"},
